@@ -58,6 +58,14 @@ def std_variants(tier: str, noop: bool) -> List[Dict[str, Any]]:
     hv = _v("local", "local", ["one"], "from", 0.12)
     hv["pristine"] = {"hashseed": "vary"}
     v.append(hv)
+    # helpers realised as classes with a method (instantiated and called in place of the function)
+    kv = _v("local", "local", ["split"], "from", 0.25)
+    kv["klass"] = True
+    v.append(kv)
+    # notebook placement: IPython cells in one process, functions redefined in place on every edit
+    cv = _v("memory", "memory", ["one"], "from", 0.25)
+    cv["cells"] = True
+    v.append(cv)
     if tier == "thorough":
         for x in v:
             x["frac"] = 1.0
@@ -92,6 +100,12 @@ def c14_variants(tier: str) -> List[Dict[str, Any]]:
             continue
         x = _v("local", "local", [lay], imp, 1.0 if tier == "thorough" else frac)
         x["accept"] = acc(prefix, n)
+        v.append(x)
+    # accepted one by one: a sub-package first and its parent afterwards, and the reverse
+    for (lay, seq, frac) in (("split", ["vpkg.sub_f1", "vpkg"], 0.5), ("deep", ["vpkg.a.b.c", "filler_x", "vpkg.a"], 0.5),
+                             ("split", ["vpkg", "vpkg.sub_f2"], 0.34)):
+        x = _v("local", "local", [lay], "from", 1.0 if tier == "thorough" else frac)
+        x["accept"] = seq
         v.append(x)
     return v
 
@@ -241,13 +255,15 @@ def run_family(prop: str, tier: str) -> int:
     ref_checked = 0
     t_budget = 70 if tier == "quick" else 1500
     t0 = time.time()
-    gens: Dict[Tuple[str, Tuple[str, ...]], List[Dict[str, Any]]] = {}
+    gens: Dict[Any, List[Dict[str, Any]]] = {}
     proto_traces: List[Any] = []
     for (vi, v) in enumerate(variants):
-        key = (v["spec_store"], tuple(v["layouts"]))
+        placement = "cells" if v.get("cells") else "package"
+        key = (v["spec_store"], tuple(v["layouts"]), placement)
         if key not in gens:
-            (_, hs) = evalfam.tlc_generate(_shapes_for(S, v["spec_store"]), plans, max_ver, v["spec_store"],
-                                           "package", v["layouts"], name="gen%d_" % vi, stages=stages,
+            vplans = [pl for pl in plans if "restart" not in pl] if v.get("cells") else plans
+            (_, hs) = evalfam.tlc_generate(_shapes_for(S, v["spec_store"]), vplans, max_ver, v["spec_store"],
+                                           placement, v["layouts"], name="gen%d_" % vi, stages=stages,
                                            fail_classes=fails)
             gens[key] = hs
         hs = gens[key]
@@ -255,6 +271,8 @@ def run_family(prop: str, tier: str) -> int:
         for s in S:
             s2 = copy.deepcopy(s)
             s2.real["import_form"] = v["imp"]
+            if v.get("klass"):
+                s2.real["as_class"] = shp.class_candidates(s2)
             byname[s.name] = s2
         items = [(byname[h["shape"]], h["hist"]) for h in hs]
         if vi == 0:
@@ -269,12 +287,19 @@ def run_family(prop: str, tier: str) -> int:
             ref_checked = evalfam.reference_check(items, limit=300 if tier == "quick" else 2000)
         remaining = max(10.0, t_budget - (time.time() - t0))
         res = evalfam.replay_many(items, v["real_store"], loads=bool(fam.get("loads")), budget_s=remaining,
-                                  accept=v.get("accept"), pristine=v.get("pristine"))
+                                  accept=v.get("accept"), pristine=v.get("pristine"),
+                                  mode="cells" if v.get("cells") else "dds")
         realisation = "store=%s,layouts=%s,import=%s" % (v["real_store"], "/".join(v["layouts"]), v["imp"])
+        if v.get("klass"):
+            realisation += ",helpers-as-classes"
+        if v.get("cells"):
+            realisation += ",notebook-cells"
         if v.get("pristine"):
             realisation += ",pristine-hashseed=%s" % v["pristine"].get("hashseed")
         if v.get("accept"):
             realisation += ",accept=%s+%d" % (v["accept"][0], len(v["accept"]) - 1)
+            if len(v["accept"]) > 1 and not v["accept"][1].startswith("filler"):
+                realisation = realisation.rsplit(",", 1)[0] + ",accept=" + ">".join(v["accept"])
         for ((shape, hist), obs) in zip(items, res):
             if obs is None:
                 continue
